@@ -110,8 +110,13 @@ func checkLib(cs *caseJ) (v libVerdict, err error) {
 			v.rejected = true
 			return // the handler stores nothing of this block
 		}
-		if nb > 0 && last {
+		if nb > 0 && (last || cs.Strict) {
 			l := cs.Lines[len(cs.Lines)-1]
+			for _, x := range cs.Lines {
+				if !x.Valid {
+					l = x
+				}
+			}
 			err = fmt.Errorf("broken line (%s) %q was accepted without an error", l.Mut, l.Text)
 			return
 		}
